@@ -311,6 +311,8 @@ class ConstEval:
                                     out[t.id] = MemberObj(c.qualname, v.id, c.methods[v.id].kind)
                                 else:
                                     out[t.id] = MemberObj(c.qualname, t.id, "attr")
+                    elif isinstance(st, ast.AnnAssign) and isinstance(st.target, ast.Name) and st.value is not None:
+                        out[st.target.id] = MemberObj(c.qualname, st.target.id, "attr")
                 return out
             if f.id == "dir" and len(args) == 1 and isinstance(args[0], ClassRef):
                 c = self.prog.classes[args[0].qualname]
